@@ -116,65 +116,6 @@ Qed.
 
 Definition keys_unique (c : cls) : Prop := forall n e, In (n, e) c -> trait_of c n = Some e.
 
-Lemma law_setattr E c s n v d dflt (h : how) :
-  is_undefined v = false ->
-  h <> Ctor -> class_ok E c = true -> post_safe c = true -> keys_unique c -> ShInv c s ->
-  trait_of c n = Some (d, dflt) ->
-  law_step E c s (h, [(n, v)]) (mkObs (snd (setattr E c s n v)) true (fst (setattr E c s n v))) = [].
-Proof.
-  intros Hu Hh Hc Hp Hk HS Ht.
-  destruct (class_ok_at E c _ _ _ Hc Ht) as (Hsd & Hr & _).
-  unfold sound_hyp in Hsd. apply andb_prop in Hsd as [Hsd HB]. apply andb_prop in Hsd as [Hsd _].
-  apply andb_prop in Hsd as [Hwf _].
-  destruct (setattr E c s n v) as [s' out] eqn:Hs. cbn [fst snd].
-  unfold law_step. cbn [o_out o_after o_names_attr].
-  assert (Hbase : (match h, out with Ctor, Ok => [] | _, _ => s end) = s) by (destruct h, out; congruence).
-  rewrite Hbase.
-  assert (Hframe : forall m, m <> n -> m <> shadow n -> get s' m = get s m).
-  { intros m H1 H2. pose proof (setattr_frame E c s n v m H1 H2) as Hf. now rewrite Hs in Hf. }
-  (* clause 2 *)
-  assert (H2 : same_on (filter (fun m => negb (touched [(n, v)] m)) (names_of c)) s s' = true).
-  { apply same_on_get. intros m Hm. apply filter_In in Hm as [_ Hm]. cbn in Hm.
-    rewrite orb_false_r in Hm. apply negb_true_iff, orb_false_iff in Hm as [Ha Hb].
-    apply Z.eqb_neq in Ha, Hb. symmetry. apply Hframe; auto. }
-  rewrite H2. cbn [chk app].
-  destruct out as [|e].
-  - (* stored *)
-    destruct (setattr_ok E c s n v s' d dflt Hu Hc Hp HS Ht Hs) as (w & Hv & Hg & Hsh).
-    assert (H1 : forallb (fun nd =>
-                 (opt_eqb pv_eqb (get s (fst nd)) (get s' (fst nd))
-                  && opt_eqb pv_eqb (get s (shadow (fst nd))) (get s' (shadow (fst nd))))
-                 || entry_ok E s' nd) c = true).
-    { apply forallb_forall. intros [m [dm dfm]] Hin. cbn [fst].
-      pose proof (Hk _ _ Hin) as Htm.
-      destruct (Z.eq_dec m n) as [->|Hmn].
-      - rewrite Ht in Htm. inversion Htm; subst. apply orb_true_iff. right. cbn. rewrite Hg.
-        rewrite (vs_sound E c s dm v w); auto.
-        destruct (class_ok_at E c _ _ _ Hc Ht) as (Hx & _). exact Hx.
-      - apply orb_true_iff. left.
-        assert (Hms : m <> shadow n) by (eapply names_shadow_disjoint; eauto).
-        destruct (class_ok_at E c _ _ _ Hc Htm) as (_ & Hrm & _).
-        rewrite (Hframe m Hmn Hms).
-        rewrite (Hframe (shadow m)) by (unfold shadow in *; lia).
-        now rewrite !opt_pv_refl. }
-    rewrite H1. cbn [chk app]. cbn [forallb fst snd]. rewrite Ht, Hg.
-    rewrite (vs_conv E c s d v w Hwf HB Hv). reflexivity.
-  - (* an exception: nothing changed *)
-    pose proof (setattr_exception_no_effect E c s n v s' e Hu Hp Hs) as ->.
-    assert (H1 : forallb (fun nd =>
-                 (opt_eqb pv_eqb (get s (fst nd)) (get s (fst nd))
-                  && opt_eqb pv_eqb (get s (shadow (fst nd))) (get s (shadow (fst nd))))
-                 || entry_ok E s nd) c = true).
-    { apply forallb_forall. intros nd _. now rewrite !opt_pv_refl. }
-    rewrite H1. cbn [chk app].
-    assert (H3 : match h with Ctor => same_on (names_of c) s s | _ => same_on (names_of c) s s end = true)
-      by (destruct h; apply same_on_refl).
-    destruct (setattr_exception_class E c s n v s e d dflt Hu Hp Ht Hwf Hs) as [-> | Hown].
-    + destruct h; rewrite ?same_on_refl; reflexivity.
-    + destruct h; rewrite ?same_on_refl; cbn [chk app];
-        destruct e; cbn [existsb snd]; rewrite ?Hown; reflexivity.
-Qed.
-
 (* ---------- invariants along histories of single-keyword attribute / trait_set operations ---------- *)
 Lemma setattr_shinv E c s n v :
   is_undefined v = false -> class_ok E c = true -> post_safe c = true -> keys_unique c -> ShInv c s ->
@@ -341,10 +282,33 @@ Proof.
     - destruct (assign_all E c s kw) as [s1 out] eqn:Ha. cbn [fst snd].
       pose proof (assign_all_frame E c kw s m Hnt) as F. rewrite Ha in F. cbn in F. now destruct out. }
   rewrite H2. cbn [chk app].
+  (* clause 6: a single assignment to a name-based Range *)
+  assert (H6 : match snd (step E c s (h, kw)) with
+               | Ok => dyn_assign_ok c (match h with Ctor => [] | _ => s end) (fst (step E c s (h, kw))) kw
+               | Raise _ => true
+               end = true).
+  { destruct kw as [|[n v] [|q kw']]; try (destruct (snd (step E c s (h, _))); reflexivity).
+    assert (Hu : is_undefined v = false) by (cbn in Hdef; apply andb_prop in Hdef as [Hu _]; now apply negb_true_iff in Hu).
+    assert (G : forall s0, ShInv c s0 ->
+                match snd (setattr E c s0 n v) with
+                | Ok => dyn_assign_ok c s0 (fst (setattr E c s0 n v)) [(n, v)]
+                | Raise _ => true
+                end = true).
+    { intros s0 HS0. destruct (setattr E c s0 n v) as [s1 [|e]] eqn:Hs; [|reflexivity]. cbn [fst snd dyn_assign_ok].
+      destruct (trait_of c n) as [[d dflt]|] eqn:Ht; [|reflexivity].
+      destruct (setattr_ok E c s0 n v s1 d dflt Hu Hc Hp HS0 Ht Hs) as (w & Hv & Hg & _).
+      destruct d; try reflexivity.
+      destruct (dyn_range_in_bounds_lemma E c s0 lo hi mask v w Hv) as (l & hh & z & Hl & Hh & -> & _ & Hr).
+      now rewrite Hg, Hl, Hh. }
+    destruct h; cbn [step].
+    - specialize (G s HS). cbn [assign_all]. destruct (setattr E c s n v) as [s1 [|e]]; exact G.
+    - specialize (G s HS). cbn [assign_all]. destruct (setattr E c s n v) as [s1 [|e]]; exact G.
+    - specialize (G [] (shinv_empty c)). cbn [assign_all]. destruct (setattr E c [] n v) as [s1 [|e]]; exact G.
+    - specialize (G s HS). cbn [assign_all]. destruct (setattr E c s n v) as [s1 [|e]]; exact G. }
   (* clauses 3, 4, 5 *)
-  destruct h; cbn [step].
+  destruct h; cbn [step] in *.
   - (* Attr *) destruct (assign_all E c s kw) as [s1 [|e]] eqn:Ha; cbn [fst snd].
-    + rewrite (assign_all_ok E c kw s s1 Hc Hp HS Hk Hok Ha). reflexivity.
+    + rewrite (assign_all_ok E c kw s s1 Hc Hp HS Hk Hok Ha). cbn [fst snd] in H6. rewrite H6. reflexivity.
     + assert (H3 : match kw with [_] => same_on (names_of c) s s1 | _ => true end = true).
       { destruct kw as [|[n v] [|q kw']]; try reflexivity.
         cbn in Ha. destruct (setattr E c s n v) as [s2 [|e2]] eqn:Hs; inversion Ha; subst.
@@ -354,7 +318,7 @@ Proof.
       * destruct kw as [|p [|q kw']]; rewrite ?H3; reflexivity.
       * destruct kw as [|p [|q kw']]; rewrite ?H3; cbn [chk app]; destruct e; rewrite ?Hx; reflexivity.
   - (* TraitSet *) destruct (assign_all E c s kw) as [s1 [|e]] eqn:Ha; cbn [fst snd].
-    + rewrite (assign_all_ok E c kw s s1 Hc Hp HS Hk Hok Ha). reflexivity.
+    + rewrite (assign_all_ok E c kw s s1 Hc Hp HS Hk Hok Ha). cbn [fst snd] in H6. rewrite H6. reflexivity.
     + assert (H3 : match kw with [_] => same_on (names_of c) s s1 | _ => true end = true).
       { destruct kw as [|[n v] [|q kw']]; try reflexivity.
         cbn in Ha. destruct (setattr E c s n v) as [s2 [|e2]] eqn:Hs; inversion Ha; subst.
@@ -364,12 +328,12 @@ Proof.
       * destruct kw as [|p [|q kw']]; rewrite ?H3; reflexivity.
       * destruct kw as [|p [|q kw']]; rewrite ?H3; cbn [chk app]; destruct e; rewrite ?Hx; reflexivity.
   - (* Ctor *) destruct (assign_all E c [] kw) as [s1 [|e]] eqn:Ha; cbn [fst snd].
-    + rewrite (assign_all_ok E c kw [] s1 Hc Hp (shinv_empty c) Hk Hok Ha). reflexivity.
+    + rewrite (assign_all_ok E c kw [] s1 Hc Hp (shinv_empty c) Hk Hok Ha). cbn [fst snd] in H6. rewrite H6. reflexivity.
     + rewrite same_on_refl. cbn [chk app].
       destruct (assign_all_exn E c kw [] s1 e Hc Hp Hok Ha) as [->|Hx]; [reflexivity|].
       destruct e; rewrite ?Hx; reflexivity.
   - (* TraitSetQ *) destruct (assign_all E c s kw) as [s1 [|e]] eqn:Ha; cbn [fst snd].
-    + rewrite (assign_all_ok E c kw s s1 Hc Hp HS Hk Hok Ha). reflexivity.
+    + rewrite (assign_all_ok E c kw s s1 Hc Hp HS Hk Hok Ha). cbn [fst snd] in H6. rewrite H6. reflexivity.
     + assert (H3 : match kw with [_] => same_on (names_of c) s s1 | _ => true end = true).
       { destruct kw as [|[n v] [|q kw']]; try reflexivity.
         cbn in Ha. destruct (setattr E c s n v) as [s2 [|e2]] eqn:Hs; inversion Ha; subst.
